@@ -287,13 +287,15 @@ def run(tier: str) -> Run:
             for with_bkg_stats in ((True,) if viol['background_is_better'] else (True, False)):
                 w = World(repo)
                 # a non-uniform grid: fine below x = 2, coarse above; spacing around x = 6 is 2, the smallest spacing 1/2
-                data = w.data(9, grid=(0, F(1, 2), 1, F(3, 2), 2, 4, 6, 8, 10))
+                # (coordinates far from zero: a distance is a difference, not the coordinate itself)
+                X0 = 100
+                data = w.data(9, grid=tuple(X0 + g_ for g_ in (0, F(1, 2), 1, F(3, 2), 2, 4, 6, 8, 10)))
                 # (a fitted location outside the window, by more than two steps, is closer to the edge than any point inside)
-                loc_val = {'left': F(1, 4), 'right': F(19, 2), 'last point': F(10), 'outside left': F(-3), 'outside right': F(14)}[edge_side] if viol['peak_near_edge'] else F(6)
+                loc_val = X0 + ({'left': F(1, 4), 'right': F(19, 2), 'last point': F(10), 'outside left': F(-3), 'outside right': F(14)}[edge_side] if viol['peak_near_edge'] else F(6))
                 violated = [k for k, v in viol.items() if v]
                 # window width 10, spacing around the centre 2: max width factor 0.5 (-> 5), min width factor 2 (-> 4); fwhm 9/2 meets both
                 peak, bkg = steer(w, violate=violated, loc_val=loc_val, bkg_fit_fails=not with_bkg_stats)
-                window = w.model.array(w.it, [w.scalar('wlo', ANG, -1), w.scalar('whi', ANG, 100)], 'range')
+                window = w.model.array(w.it, [w.scalar('wlo', ANG, X0 - 1), w.scalar('whi', ANG, X0 + 100)], 'range')
                 kind, res = fit_through_public(w, repo, data, peaks=peak, bkgs=bkg, window=window,
                                                requirements=requirements(repo, max_peak_width_factor=0.5, min_peak_width_factor=2.0))
                 n2 += 1
@@ -508,6 +510,22 @@ def run(tier: str) -> Run:
                     if not (isinstance(got.term, Rat) and (got.term.eq(want) or ev(got.term) == ev(want) or (not use_exact and abs(ev(got.term) - ev(want)) < F(1, 10 ** 12) * ev(u)))):
                         probs.append(f'{label} edge of window {i}: {T.show(got.term) if got.term is not None else None}, expected {T.show(want)}')
         r5.check(not probs, name, where5, {'problems': probs[:3]}, key='_fit_windows')
+
+    # ---- R7: the documented defaults (what "every stated requirement" means when the caller states none) -----------------------------
+    r7 = run.rule('R7', 'defaults of FitRequirements (p >= 0.01, width factors 1.0) and FitParameters (background fraction 0.5, neighbour separation 1/3) '
+                        'are the documented ones', 2)
+    w = World(repo)
+    for cname, want_defaults in (('FitRequirements', {'min_p_value': 0.01, 'max_peak_width_factor': 1.0, 'min_peak_width_factor': 1.0}),
+                                 ('FitParameters', {'guess_background_fraction': 0.5, 'neighbor_separation_factor': 1 / 3})):
+        kind, obj = 'return', None
+        try:
+            obj = w.it.construct(repo.cls('peaks._common', cname), [], {}, None)
+        except RaiseSignal as r_:
+            kind = f'raises {r_.exc_type}'
+        got = {k: obj.attrs.get(k) for k in want_defaults} if isinstance(obj, SObj) else None
+        ok = got is not None and all(isinstance(got[k], int | float) and abs(got[k] - v) <= 1e-15 for k, v in want_defaults.items())
+        r7.check(ok, f'{cname}()', f'src/scippneutron/peaks/_common.py:{cname}', {'defaults': {k: repr(v) for k, v in (got or {}).items()}, 'documented': want_defaults, 'outcome': kind},
+                 key=f'defaults:{cname}')
 
     # ---- R6: remove_peaks ------------------------------------------------------------------------------------------------------
     r6 = run.rule('R6', 'remove_peaks: exactly the peaks of successful results are subtracted inside their windows, from a copy; input untouched', 4)
